@@ -115,6 +115,11 @@ func (app *App) nextCustom(c CustomCtx) (bool, error) { //nolint:unparam // bool
 	}
 	lenr := len(tree) - 1
 
+	// Routes that fail to match - and the scan of the other methods below - leave their attempts in the parameter
+	// values. If no later route matches, the handler that called Next is still the current route when it gets
+	// control back: it must find the values of its own match.
+	values := *c.getValues()
+
 	// Loop over the route stack starting from previous index
 	for c.getIndexRoute() < lenr {
 		// Increment route index
@@ -152,6 +157,7 @@ func (app *App) nextCustom(c CustomCtx) (bool, error) { //nolint:unparam // bool
 	if !c.getMatched() && app.methodExistCustom(c) {
 		err = ErrMethodNotAllowed
 	}
+	*c.getValues() = values
 	return false, err
 }
 
@@ -162,6 +168,9 @@ func (app *App) next(c *DefaultCtx) (bool, error) {
 		tree = app.treeStack[c.methodInt][0]
 	}
 	lenTree := len(tree) - 1
+
+	// see nextCustom: the values of the caller's own match are put back if no later route matches
+	values := c.values
 
 	// Loop over the route stack starting from previous index
 	for c.indexRoute < lenTree {
@@ -207,6 +216,7 @@ func (app *App) next(c *DefaultCtx) (bool, error) {
 		// Moved from app.handler because middleware may break the route chain
 		err = ErrMethodNotAllowed
 	}
+	c.values = values
 	return false, err
 }
 
